@@ -175,6 +175,10 @@ func TestC11Pairs(t *testing.T) {
 			if a, ok := new(big.Int).SetString(d.Amount, 10); !ok || a.Cmp(big.NewInt(1_000_000_000_000)) > 0 {
 				d.Amount = "123456"
 			}
+			if kit.Chance(rt, fmt.Sprintf("dep/%d/whale", i), 12) {
+				d.User = "whale"
+				d.Amount = pick(rt, fmt.Sprintf("dep/%d/big", i), []string{"9223372036854775807", "9223372036854775808", "18446744073709551616", "340282366920938463463374607431768211456"})
+			}
 			c.Deposits = append(c.Deposits, d)
 		}
 		rec.Eval()
